@@ -18,6 +18,8 @@ UNITS = [
     {'name': 'ef.scan', 'backend': 'verus', 'tier': 'quick'},
     {'name': 'rcl.str', 'backend': 'verus', 'tier': 'quick'},
     {'name': 'rcl.read', 'backend': 'verus', 'tier': 'quick'},
+    {'name': 'rcl.build', 'backend': 'verus', 'tier': 'quick'},
+    {'name': 'rcl.decode', 'backend': 'verus', 'tier': 'quick'},
     {'name': 'k.rcl_int', 'backend': 'kani', 'tier': 'quick', 'props': ['C09', 'C12']},
     {'name': 'k.rank_small_counters', 'backend': 'kani', 'tier': 'quick', 'props': ['C01', 'C12']},
     {'name': 'k.bfv_unaligned', 'backend': 'kani', 'tier': 'quick', 'props': ['C10', 'C12']},
